@@ -483,6 +483,16 @@ def check_bubbles(case):
     require(lib_eq(ba, bb) == expected, "C03:bubble-eq-ignores-inside",
             lambda: "{!r} == {!r}".format(ba, bb))
     roundtrip(ba, cls, "bubble")
+    # a bubble is a box: it equals the one-box diagram that wraps it, hashes
+    # and prints like it, and can replace it as a key
+    wrapped = ba.id(ba.dom) >> ba
+    if type(wrapped) is not type(ba):
+        require(lib_eq(ba, wrapped), "C03:box-vs-one-box-diagram",
+                lambda: "{!r} != {!r} (a {})".format(
+                    ba, wrapped, type(wrapped).__name__))
+        require(hash(ba) == hash(wrapped), "C03:hash", lambda: repr(ba))
+        require({ba: 1}.get(wrapped) == 1, "C03:dict-key", lambda: repr(ba))
+        roundtrip(wrapped, cls, "one-box diagram of a bubble")
     return dict(nt=not expected or case["typed"], labels=[cls],
                 show=repr(ba)[:200])
 
